@@ -13,6 +13,7 @@ META = {
         "only for an existing link, UnknownLane answers lane-not-found; R5 the read task reports unknown lanes for non-command envelopes; "
         "R6 on stop every open link is unlinked and pending writes are drained, a failed lane unlinks all its remotes; R7 one writer token per "
         "remote; R8 events are only ever sent to linked remotes. R12 (shared queue discipline) whatever is recorded for a link while the remote's writer is busy is scheduled."
+        " R11 also: a remote's entry in the backwards index is deleted only when it is empty (remove, remove_lane)."
 ),
     "does_not_decide": "the full per-pair frame language over all interleavings of read and write tasks; byte equality of bodies beyond 'the body operand is the lane's buffer'",
 }
